@@ -44,7 +44,7 @@ def run(ctx):
     for i in range(8):
         jobs.append(("rnd:%d" % i, [exe, "rnd", str(nr), str(i), "8", str(ctx.seed)]))
     ctx.log("proofs + builds done; running %d G1 jobs" % len(jobs))
-    r = vlib.run_pipelines(jobs, driver)
+    r = vlib.run_pipelines(jobs, driver, timeout=3000 if thorough else 1500)
     ctx.log("G1 done: %d executions, %d accesses" % (r["cases"], r["ops"]))
     ctx.cov.update({
         "evaluations": r["cases"], "distinct_nontrivial": r["distinct_nontrivial"],
@@ -167,7 +167,7 @@ def g3(ctx):
         jobs.append(("g3exh:local:%d" % i, [exe, "exh", "6" if thorough else "5", str(i), str(nsh), str(ctx.seed), "local"]))
         jobs.append(("g3exh:ipc:%d" % i, [exe, "exh", "5" if thorough else "4", str(i), str(nsh), str(ctx.seed), "ipc"]))
         jobs.append(("g3rnd:%d" % i, [exe, "rnd", "5000" if thorough else "250", str(i), str(nsh), str(ctx.seed), "both"]))
-    r = vlib.run_pipelines(jobs, driver)
+    r = vlib.run_pipelines(jobs, driver, timeout=3000 if thorough else 1500)
     ctx.cov["g3_blackboard"] = {
         "evaluations": r["cases"], "ops": r["ops"], "distinct_nontrivial": r["distinct_nontrivial"], "opcount": r["opcount"],
         "branches": dict(sorted(r["extra"].items())),
